@@ -195,13 +195,15 @@ func (g *gen) rulesLane() []inputSpec {
 	var paths [][]pathElem
 	allPaths(ruleDoc("/a/x"), nil, &paths)
 	for _, p := range paths {
-		for ci, c := range confusions() {
+		// YAML only: a mapping whose keys are not strings decodes into map[any]any instead of map[string]any
+		for ci, c := range append(confusions(), confusion{"map-non-string-keys", map[any]any{1: "x", true: []any{1}, "s": map[any]any{2.5: nil}}}) {
 			m := marker()
 			doc := setPath(deepCopy(ruleDoc(m)), p, deepCopy(c.val))
 			var data []byte
 			if (len(p)+ci)%5 == 0 {
 				data, _ = json.Marshal(doc)
-			} else {
+			}
+			if len(data) == 0 { // also: what JSON cannot express
 				data = toYAML(doc)
 			}
 			addRaw("type-confusion", pathString(p)+"="+c.name, m, data)
@@ -262,6 +264,11 @@ func (g *gen) rulesLane() []inputSpec {
 		{"contextualizer-id-map", "version: \"1alpha4\"\nrules:\n- id: x\n  match: {routes: [{path: /a/q}]}\n  execute: [{authenticator: anon}, {contextualizer: {id: gctx}}]\n"},
 		{"finalizer-id-null", "version: \"1alpha4\"\nrules:\n- id: x\n  match: {routes: [{path: /a/q}]}\n  execute: [{authenticator: anon}, {finalizer: ~}]\n"},
 		{"error-handler-id-bool", "version: \"1alpha4\"\nrules:\n- id: x\n  match: {routes: [{path: /a/q}]}\n  execute: [{authenticator: anon}]\n  on_error: [{error_handler: true}]\n"},
+		{"config-non-string-key-finalizer", "version: \"1alpha4\"\nrules:\n- id: x\n  match: {routes: [{path: /a/q}]}\n  execute: [{authenticator: anon}, {finalizer: jwtfin, config: {1: bar, ttl: 5m}}]\n"},
+		{"config-non-string-key-authenticator", "version: \"1alpha4\"\nrules:\n- id: x\n  match: {routes: [{path: /a/q}]}\n  execute: [{authenticator: anon, config: {true: x}}]\n"},
+		{"config-null-key-error-handler", "version: \"1alpha4\"\nrules:\n- id: x\n  match: {routes: [{path: /a/q}]}\n  execute: [{authenticator: anon}]\n  on_error: [{error_handler: wwwa, config: {~: x, realm: r}}]\n"},
+		{"config-nested-non-string-key", "version: \"1alpha4\"\nrules:\n- id: x\n  match: {routes: [{path: /a/q}]}\n  execute: [{authenticator: anon}, {authorizer: celz, config: {expressions: [{1: x, expression: \"true\"}]}}]\n"},
+		{"config-list-key", "version: \"1alpha4\"\nrules:\n- id: x\n  match: {routes: [{path: /a/q}]}\n  execute: [{authenticator: anon}, {contextualizer: gctx, config: {[a, b]: c}}]\n"},
 		{"config-is-string", "version: \"1alpha4\"\nrules:\n- id: x\n  match: {routes: [{path: /a/q}]}\n  execute: [{authenticator: anon, config: nope}]\n"},
 		{"config-is-list", "version: \"1alpha4\"\nrules:\n- id: x\n  match: {routes: [{path: /a/q}]}\n  execute: [{authenticator: anon}, {finalizer: jwtfin, config: [1, 2]}]\n"},
 		{"error-handler-config-is-number", "version: \"1alpha4\"\nrules:\n- id: x\n  match: {routes: [{path: /a/q}]}\n  execute: [{authenticator: anon}]\n  on_error: [{error_handler: defeh, config: 7}]\n"},
